@@ -70,12 +70,38 @@ def run(res, a):
             viol.append(("SinglePipelineSimulate fails: %s" % r["err"], {"sim": q}))
         elif len(r.get("distinct") or []) > 1:
             viol.append(("25 runs of SinglePipelineSimulate on one machine give different reports: %s" % r["distinct"][:3], {"sim": q}))
+    # single-shot simulations with opcode delays (one SimDelays object, degenerate distributions so that the result is a function
+    # of the machine), sequentially and as eight concurrent callers sharing that object: one report, the same in both
+    dl_reqs = []
+    for q in rep_reqs[:2 if a.tier == "quick" else 6]:
+        delays = {"rset": {str(rnd.choice([1, 2, 3])): 1.0}, "r2owa": {str(rnd.choice([1, 2, 4])): 1.0}, "nop": {"1": 0.5}}
+        dl_reqs.append(dict(q, n=4, conc=0, delays=delays))
+        dl_reqs.append(dict(q, n=24, conc=8, delays=delays))
+    pdl = C.sh([C.BMH, "c17"], input="".join(json.dumps(r) + "\n" for r in dl_reqs), timeout=1800, check=False)
+    dl = C.jsonl(pdl.stdout) if pdl.stdout.strip() else []
+    if pdl.returncode != 0 or len(dl) != len(dl_reqs):
+        k = min(len(dl), len(dl_reqs) - 1)
+        why = [l for l in pdl.stderr.splitlines() if l.startswith("fatal error") or l.startswith("panic")]
+        viol.append(("the process running %s single-shot simulations with shared opcode delays dies: %s"
+                     % ("concurrent" if dl_reqs[k]["conc"] else "sequential", (why or [pdl.stderr[-300:]])[0]), {"sim": dl_reqs[k]}))
+    else:
+        for j in range(0, len(dl_reqs), 2):
+            sq, cq = dl[j], dl[j + 1]
+            res.count_case(dl_reqs[j + 1], nontrivial=True)
+            if sq.get("err") or cq.get("err"):
+                viol.append(("SinglePipelineSimulate with opcode delays fails: %s" % (sq.get("err") or cq.get("err")), {"sim": dl_reqs[j + 1]}))
+            elif len(sq.get("distinct") or []) != 1 or (cq.get("distinct") or []) != sq["distinct"]:
+                viol.append(("single-shot simulations with the same opcode delays give different reports: sequential %s, eight concurrent callers %s"
+                             % (sq.get("distinct"), (cq.get("distinct") or [])[:3]), {"sim": dl_reqs[j + 1]}))
     bad, compared = simlib.model_mismatches("C09", pairs)
     race = None
     if a.tier == "thorough":
         rb = C.build_harness(race=True)
         p = C.sh([rb, "c09"], input="".join(json.dumps(r) + "\n" for r in reqs[:20]), timeout=3000, check=False)
         race = "DATA RACE" in p.stderr
+        if not race:
+            p = C.sh([rb, "c17"], input="".join(json.dumps(r) + "\n" for r in dl_reqs), timeout=3000, check=False)
+            race = "DATA RACE" in p.stderr
         if race:
             viol.append(("the race detector reports a data race: %s" % p.stderr[p.stderr.find("DATA RACE"):][:600], reqs[0]))
     cov = res.coverage
